@@ -224,11 +224,27 @@ def body_onepercent(case, ctx):
 
 
 def pinned_onepercent():
-    unit = {"atom": 1, "alpha": 10.0, "c": 1.0}
+    z = [0.0, 0.0, 1.0]
     return [
-        # probe of the known finding: Na-O at 2.0 bohr, coarse, one unit Gaussian on the oxygen
-        {"preset": "coarse", "atnums": [11, 8], "links": [{"parent": 0, "dir": [0.0, 0.0, 1.0], "dist": 2.0}], "gauss": [unit], "rotate": 37},
-        {"preset": "medium", "atnums": [6, 11], "links": [{"parent": 0, "dir": [0.0, 0.0, 1.0], "dist": 1.3}], "gauss": [{"atom": 0, "alpha": 10.78, "c": 1.0}], "rotate": 37},
+        # probes of the known finding (inside the region, 1 % < error < 20 %)
+        {"preset": "coarse", "atnums": [11, 8], "links": [{"parent": 0, "dir": z, "dist": 2.0}], "gauss": [{"atom": 1, "alpha": 3.0, "c": 1.0}], "rotate": 37},
+        {"preset": "medium", "atnums": [6, 11], "links": [{"parent": 0, "dir": z, "dist": 1.3}], "gauss": [{"atom": 0, "alpha": 10.78, "c": 1.0}], "rotate": 37},
+        {"preset": "coarse", "atnums": [55, 38], "links": [{"parent": 0, "dir": z, "dist": 1.2}], "gauss": [{"atom": 1, "alpha": 1.913183095466858, "c": 1.0}], "rotate": 0},
+        {
+            "preset": "coarse",
+            "atnums": [37, 2, 11, 41],
+            "links": [{"parent": 0, "dir": z, "dist": 1.2}, {"parent": 1, "dir": z, "dist": 1.2}, {"parent": 2, "dir": z, "dist": 1.25}],
+            "gauss": [{"atom": 1, "alpha": 6.463304070095652, "c": 1.0}],
+            "rotate": 0,
+        },
+        # worst case seen outside the region during calibration (0.42 %): must stay below 1 %
+        {
+            "preset": "coarse",
+            "atnums": [7, 2, 7, 2],
+            "links": [{"parent": 0, "dir": z, "dist": 3.89}, {"parent": 1, "dir": [1.0, 0.0, 0.0], "dist": 6.18}, {"parent": 2, "dir": [0.0, 1.0, 0.0], "dist": 7.3}],
+            "gauss": [{"atom": 3, "alpha": 0.5004301611600176, "c": 1.0}],
+            "rotate": 37,
+        },
         # ordinary molecules, every preset: water-like
         *[
             {
